@@ -12,9 +12,10 @@ static void body(Ctx& C)
    C.rule("a case = one substitution history: a pool of 1..200 parameters over several mappings (some at one level), lambdas, requires-"
           "expressions and function declarators (look-alike parameters: same name, type, level and position in different lists), a sequence of 0..2000 bindings with ~30% rebinding, including binding a parameter to itself and to another "
           "parameter; after every binding every parameter of the pool is queried and compared with a std::map model (latest binding, "
-          "else the parameter itself); elementary substitutions: one binding, every pool parameter queried; non-trivial = >= 2 parameters");
+          "else the parameter itself); single look-ups are interleaved with the bindings (of the parameter about to be bound, right before and right after, repeated, of others); elementary substitutions: one binding, every pool parameter queried; non-trivial = >= 2 parameters");
    C.need("elementary_queries_in_domain"); C.need("elementary_queries_outside_domain"); C.need("general_queries_in_domain");
    C.need("general_queries_outside_domain"); C.need("rebindings"); C.need("self_bindings"); C.need("parameter_lists"); C.need("parameters_with_a_default"); C.need("chained_bindings"); C.need("histories_binding_values_of_every_factory_kind");
+   C.need("lookup_of_an_unbound_parameter_right_before_its_first_binding"); C.need("lookup_of_a_bound_parameter_right_before_its_rebinding"); C.need("lookup_right_after_the_binding"); C.need("same_lookup_repeated"); C.need("one_parameter_asked_of_several_substitutions_in_turn"); C.need("lookup_of_another_parameter");
    std::set<int> value_kinds;
    Rng seeds(C.seed);
    const int nhist = C.thorough ? 6000 : 120;
@@ -75,21 +76,35 @@ static void body(Ctx& C)
       }
       auto where = [&](int step) { return J().n("history", h).n("parameters", np).n("step", step).str(); };
       // -- elementary substitutions
+      struct Elem { const Substitution* s; const Parameter* p; const Expr* v; };
+      std::vector<Elem> elems;
       for (int e = 0; e < 6; ++e) {
-         const Parameter& p = *rng.pick(pool);
+         const Parameter& p = (e % 2 && !elems.empty()) ? *elems.back().p : *rng.pick(pool);      // pairs binding the same parameter to different values
          const Expr* v = rng.chance(20) ? static_cast<const Expr*>(rng.pick(pool)) : rng.pick(values);
          if (rng.chance(10)) v = &p;
          const Substitution& s = *lex.make_elementary_substitution(p, *v);
+         elems.push_back({ &s, &p, v });
          for (auto q : pool) {
             const Expr& r = s[*q];
             if (q == &p) { C.count("elementary_queries_in_domain"); if (&r != v) C.viol("elementary:bound-parameter-not-mapped-to-value", "an elementary substitution does not yield its value for its parameter", where(-1)); }
             else { C.count("elementary_queries_outside_domain"); if (&r != static_cast<const Expr*>(q)) C.viol("elementary:other-parameter-changed", "an elementary substitution changed a parameter outside its domain", where(-1)); }
          }
       }
+      // the same parameter asked of different substitutions in turn: what one answered says nothing about the next
+      for (int k = 0; k < 40; ++k) {
+         const Parameter* q = rng.chance(50) ? rng.pick(elems).p : rng.pick(pool);
+         for (int j = 0; j < 3; ++j) {
+            const Elem& e = rng.pick(elems);
+            const Expr* want = q == e.p ? e.v : static_cast<const Expr*>(q);
+            C.count("one_parameter_asked_of_several_substitutions_in_turn");
+            if (&(*e.s)[*q] != want) C.viol("elementary:alternating-substitutions", "an elementary substitution asked right after another one for the same parameter gave a wrong answer", where(-2));
+         }
+      }
       // -- general substitution
       impl::General_substitution& g = *lex.make_general_substitution();
       impl::General_substitution& untouched = *lex.make_general_substitution();
-      std::map<const Parameter*, const Expr*> model;
+      impl::General_substitution& g2 = *lex.make_general_substitution();
+      std::map<const Parameter*, const Expr*> model, model2;
       int steps = rng.chance(5) ? 2000 : int(rng.below(60));
       if (np > 100) steps = std::min(steps, 300);
       auto query_all = [&](int step) {
@@ -102,9 +117,23 @@ static void body(Ctx& C)
             if (&static_cast<const Substitution&>(untouched)[*q] != static_cast<const Expr*>(q)) C.viol("general:independent-substitution-affected", "binding in one substitution changed another", where(step));
          }
       };
+      // a single look-up is an operation of the history too: the answer for q must be the model's whatever was asked just before
+      // (the same parameter, another one, nothing) and whatever was bound since
+      auto query_one = [&](const Parameter* q, int step, const char* when) {
+         const Expr& r = static_cast<const Substitution&>(g)[*q];
+         auto it = model.find(q);
+         const Expr* want = it != model.end() ? it->second : static_cast<const Expr*>(q);
+         C.count(when);
+         if (&r != want) C.viol(std::string("general:single-lookup:") + when, "a look-up placed between bindings does not yield the latest binding (or the parameter itself when unbound)", where(step));
+      };
       query_all(0);
       for (int i = 0; i < steps; ++i) {
          const Parameter* p = (!model.empty() && rng.chance(30)) ? std::next(model.begin(), rng.below(model.size()))->first : rng.pick(pool);
+         // look-ups right before the binding: of the parameter about to be bound (unbound or bound so far), of others, repeated
+         const int before = int(rng.below(4));
+         if (before >= 1) query_one(p, i, model.count(p) ? "lookup_of_a_bound_parameter_right_before_its_rebinding" : "lookup_of_an_unbound_parameter_right_before_its_first_binding");
+         if (before == 2) query_one(p, i, "same_lookup_repeated");
+         if (before == 3) { query_one(rng.pick(pool), i, "lookup_of_another_parameter"); if (rng.chance(50)) query_one(p, i, "same_lookup_repeated"); }
          const Expr* v = rng.chance(15) ? static_cast<const Expr*>(rng.pick(pool)) : rng.pick(values);
          if (rng.chance(5)) { v = p; C.count("self_bindings"); }
          if (model.count(p)) C.count("rebindings");
@@ -112,6 +141,17 @@ static void body(Ctx& C)
          auto&& ret = g.subst(*p, *v);
          if (static_cast<const void*>(&ret) != static_cast<const void*>(&g)) C.viol("general:subst-return", "subst does not return the substitution itself", where(i));
          model[p] = v;
+         // a second general substitution living beside the first: bound to other values, asked in turn with the first
+         if (rng.chance(30)) {
+            const Parameter* p2 = rng.chance(50) ? p : rng.pick(pool); const Expr* v2 = rng.pick(values);
+            if (rng.chance(50)) { g2.subst(*p2, *v2); model2[p2] = v2; }
+            auto it2 = model2.find(p); const Expr* want2 = it2 != model2.end() ? it2->second : static_cast<const Expr*>(p);
+            C.count("one_parameter_asked_of_several_substitutions_in_turn");
+            if (&static_cast<const Substitution&>(g2)[*p] != want2) C.viol("general:second-substitution", "a second general substitution gave a wrong answer for a parameter just bound in the first", where(i));
+         }
+         // ... and right after it, before anything else is asked
+         if (before >= 1 || rng.chance(50)) query_one(p, i, "lookup_right_after_the_binding");
+         if (rng.chance(30)) { const Parameter* q = rng.pick(pool); query_one(q, i, "lookup_of_another_parameter"); query_one(p, i, "lookup_right_after_the_binding"); }
          if (rng.chance(25)) {
             const Parameter* p2 = rng.pick(pool); const Expr* v2 = rng.pick(values); const Parameter* p3 = rng.pick(pool); const Expr* v3 = rng.pick(values);
             g.subst(*p2, *v2).subst(*p3, *v3);
